@@ -30,6 +30,8 @@ import Driver.Ev.BQ
 import Driver.Ev.Cond
 import Driver.Ev.SyncX
 import Driver.Ev.DelayQ
+import Driver.Ev.CLQ
+import Driver.Ev.LockWrapped
 
 namespace Driver.EvTrace
 open Driver Driver.Ev
@@ -44,6 +46,10 @@ inductive St where
   | limit (s : Limit.State)
   | seg (s : Seg.State)
   | dq (s : Driver.Ev.DQ.State)
+  | clq (s : Driver.Ev.CLQ.State)
+  | clist (s : Driver.Ev.CList.State)
+  | cow (s : Driver.Ev.Cow.State)
+  | cpq (s : Driver.Ev.CPQ.State)
 
 def liftE {σ} (wrap : σ → St) (r : Except String σ) : St × Option String :=
   match r with
@@ -59,6 +65,10 @@ def start (tgt : String) (args : List String) : St × Option String :=
   | "limit" => liftE .limit (Limit.init args)
   | "seg" => liftE .seg (Seg.init args)
   | "dq" => liftE .dq (DQ.init args)
+  | "clq" => liftE .clq (CLQ.init args)
+  | "clist" => liftE .clist (CList.init args)
+  | "cow" => liftE .cow (Cow.init args)
+  | "cpq" => liftE .cpq (CPQ.init args)
   | _ => (.dead, some s!"unknown target {tgt}")
 
 /-- one event of thread `t` -/
@@ -85,6 +95,18 @@ def event (st : St) (t : Nat) (what : String) (args : List String) (obs : String
   | .dq s =>
     if what = "inv" then liftE .dq (DQ.invL s t args) else if what = "res" then liftE .dq (DQ.resL s t args)
     else liftE .dq (DQ.sync s t fn act obs)
+  | .clq s =>
+    if what = "inv" then liftE .clq (CLQ.invL s t args) else if what = "res" then liftE .clq (CLQ.resL s t args)
+    else liftE .clq (CLQ.sync s t fn act obs)
+  | .clist s =>
+    if what = "inv" then liftE .clist (CList.invL s t args) else if what = "res" then liftE .clist (CList.resL s t args)
+    else liftE .clist (CList.sync s t fn act obs)
+  | .cow s =>
+    if what = "inv" then liftE .cow (Cow.invL s t args) else if what = "res" then liftE .cow (Cow.resL s t args)
+    else liftE .cow (Cow.sync s t fn act obs)
+  | .cpq s =>
+    if what = "inv" then liftE .cpq (CPQ.invL s t args) else if what = "res" then liftE .cpq (CPQ.resL s t args)
+    else liftE .cpq (CPQ.sync s t fn act obs)
 
 def finish : St → Option String
   | .abq s => ABQ.atEnd s
@@ -93,6 +115,10 @@ def finish : St → Option String
   | .limit s => Limit.atEnd s
   | .seg s => Seg.atEnd s
   | .dq s => DQ.atEnd s
+  | .clq s => CLQ.atEnd s
+  | .clist s => CList.atEnd s
+  | .cow s => Cow.atEnd s
+  | .cpq s => CPQ.atEnd s
   | _ => none
 
 def checker (model : Bool) : Checker where
